@@ -35,6 +35,8 @@ class Event:
             return f"[{'T' if self.pol else 'F'}] {s}"
         if self.kind == "loop":
             return f"[loop {'enter' if self.pol else 'skip'}] line {getattr(self.node, 'lineno', 0)}"
+        if self.kind == "loopend":
+            return f"[loop end] line {getattr(self.node, 'lineno', 0)}"
         if self.kind == "except":
             return f"[except] line {getattr(self.node, 'lineno', 0)}"
         if self.kind == "case":
@@ -107,9 +109,9 @@ def _stmt_paths(st: ast.stmt, ctr: _Counter) -> list[Path]:
             ev = [Event("loop", st, True, it)] + p.events
             if p.term in ("fall", "continue"):
                 for t in tails:
-                    out.append(Path(ev + t.events, t.term, t.term_node))
+                    out.append(Path(ev + [Event("loopend", st)] + t.events, t.term, t.term_node))
             elif p.term == "break":
-                out.append(Path(ev, "fall"))
+                out.append(Path(ev + [Event("loopend", st)], "fall"))
             else:
                 out.append(Path(ev, p.term, p.term_node))
         return out
@@ -191,7 +193,7 @@ def event_exprs(e: Event) -> Iterable[ast.AST]:
     elif e.kind == "with":
         for it in n.items:  # type: ignore[attr-defined]
             yield it.context_expr
-    elif e.kind == "case":
+    elif e.kind in ("case", "loopend"):
         pass
     elif e.kind == "except":
         pass
